@@ -7,6 +7,9 @@ namespace ScionTime.F64
 
 /-! ### 0. small `Rat` helpers -/
 
+theorem toRat_fin (q : Rat) : toRat (.fin q) = q := rfl
+theorem toRat_zero (s : Bool) : toRat (.zero s) = 0 := rfl
+
 theorem abs_le_iff {x b : Rat} : x.abs ≤ b ↔ -b ≤ x ∧ x ≤ b := by
   simp only [Rat.abs]; split <;> grind
 
